@@ -387,15 +387,15 @@ def execute(ops, tag='c14'):
     raw = [None] * len(ops)
     bases = [0] * len(ops)
     logs = ''
-    lanes = [('TestVerifC14', 'mem', lambda o: o.startswith('c14.write ') or o.startswith('c14.ps '))]
+    lanes = [('TestVerifC14', 'mem', lambda o: o.startswith('c14.write ') or o.startswith('c14.ps ') or o.startswith('c14.conc '))]
     if any(o.startswith('c14.writewx ') for o in ops):
         lanes.append(('TestVerifC14WX', 'memwx', lambda o: o.startswith('c14.writewx ')))
     for test, sub, mine in lanes:
         outp = os.path.join(C.BUILD, f'{tag}.{sub}.impl')
         rc, log, st = run_strace(bins['mem'], test, ops_path, outp, f'{tag}.{sub}')
         r = C.read_indexed(outp, len(ops))
-        if rc != 0 and not any(r):
-            raise C.Infra(f'probe c14-mem {test} failed rc={rc}:\n{log[-2000:]}')
+        if rc != 0 and not any(r) and not os.path.exists(outp + '.hdr'):
+            raise C.Infra(f'probe c14-mem {test} did not start rc={rc}:\n{log[-2000:]}')      # (it writes .hdr first; dying later is an observation)
         if rc != 0:
             logs += log
         hdr = dict(p.split('=') for p in open(outp + '.hdr').read().split()) if os.path.exists(outp + '.hdr') else {}
@@ -405,7 +405,9 @@ def execute(ops, tag='c14'):
             if not mine(op) or r[i] is None:
                 continue
             raw[i], bases[i] = r[i], base
-            if op.startswith('c14.write'):
+            if op.startswith('c14.conc'):
+                impl[i] = r[i].partition(' | ')[0]
+            elif op.startswith('c14.write'):
                 cs = per.get(i)
                 calls[i] = cs
                 cmp_part, _, extra = r[i].partition(' | ')
@@ -482,8 +484,35 @@ def gen_text_ops(fs, tier, rng):
         for b in (bigs[:2] if tier == 'quick' else bigs):
             ops.append(f"c14.tramp name={b['name']} mph={n}")
     for n in (4, 8, 12, 20, 40):
-        ops.append(f"c14.tramp name={bigs[0]['name']} mph={n} pad=1")
+        ops.append(f"c14.tramp name={bigs[0]['name']} mph={n} pad=16")
+    # every padding length 0..15 between a function and its successor, judged against the TRUE layout:
+    #  placeholders of N code bytes + P padding bytes (bound = N+P) ...
+    for n in (8, 16, 24):
+        for pad in range(0, 16):
+            ops.append(f"c14.tramp name={bigs[(n + pad) % len(bigs)]['name']} mph={n} pad={pad}")
+    #  ... and targets of E code bytes + P padding bytes (slot E+P: refused when it cannot hold the 13-byte jump)
+    for e in (1, 4, 8, 11, 12, 13, 14, 20):
+        for pad in range(0, 16):
+            img = padded_func(e, pad)
+            ops.append(f"c14.install 0 {head_scan(img)} {img[:13].hex()} name=private-mapping mfn={e} pad={pad}")
     return ops
+
+
+def padded_func(e, p):
+    """same bytes as c14u.PaddedFunc"""
+    return bytes([0x50] * (e - 1) + [0xc3] + [0xcc] * p + [0x58] * 63 + [0xc3] + [0xcc] * 16 + [0xc3])
+
+
+def head_scan(img):
+    """What goom's GetFuncSize (func_amd64.go:24, as it is) measures on these bytes — the model takes the scanned size as an
+    input: one-byte instructions only; the scan ends at the first non-INT3 byte after at least one INT3."""
+    seen = False
+    for i, b in enumerate(img):
+        if b == 0xcc:
+            seen = True
+        elif seen:
+            return i
+    return len(img)
 
 
 def pages_of(lo, n):
@@ -533,9 +562,19 @@ def oracle_text(op, obs, ph):
         return None
     tramp = op.startswith('c14.tramp')
     if tramp and int(kv.get('stray_dist', '0')):
-        pre = 'KNOWN:placeholder-bound-overrun:' if (' mph=' in op and 'pad=1' not in op and int(kv['trampsize']) > int(kv['trampdist'])) else ''
+        opkv = dict(t.split('=', 1) for t in op.split() if '=' in t)
+        pre = 'KNOWN:placeholder-bound-overrun:' if ('mph' in opkv and opkv.get('pad', '0') == '0' and int(kv['trampsize']) > int(kv['trampdist'])) else ''
         return pre + (f'{kv["stray_dist"]} byte(s) beyond the placeholder\'s own body changed (body = distance to the next symbol {kv["trampdist"]}; '
                 f'goom bounded the write by its own scan, {kv["trampsize"]} bytes)')
+    opkv = dict(t.split('=', 1) for t in op.split() if '=' in t)
+    if 'mfn' in opkv:
+        slot = int(opkv['mfn']) + int(opkv['pad'])           # the true extent: code + padding up to the successor
+        if slot < 13:
+            pre = 'KNOWN:placeholder-bound-overrun:' if opkv['pad'] == '0' else ''
+            return pre + (f'a function whose slot is {slot} bytes ({opkv["mfn"]} code + {opkv["pad"]} padding, then the next function) was patched '
+                          f'instead of refused: the 13-byte jump overwrites {13 - slot} byte(s) of its successor')
+        if int(kv.get('mfn_stray', '0')):
+            return f'{kv["mfn_stray"]} byte(s) outside the 13 entry bytes changed in the mapping'
     if not tramp and int(op.split()[2]) < 13:
         return f'a function of {op.split()[2]} bytes (too short to hold the 13-byte jump) was patched instead of refused'
     entry, ta, tsz = int(kv['entry'], 16), int(kv['tramp'], 16), int(kv['trampsize'])
@@ -783,6 +822,7 @@ def run(tier):
         ops += [l.strip() for l in open(reg) if l.strip() and not l.startswith('#')]
     ops += gen_scratch(tier, rng) + gen_ps(tier, rng)
     ops = list(dict.fromkeys(ops))
+    ops.append('c14.conc 8 1500' if tier == 'quick' else 'c14.conc 12 20000')      # last: a faulting write kills the probe
     impl, model, raw, calls, base, perr = execute(ops)
 
     # 1. the property on the implementation
@@ -796,6 +836,12 @@ def run(tier):
             if why:
                 bad.append((i, op, why))
             crashed = crashed or raw[i] is None
+    for i, op in enumerate(ops):
+        if op.startswith('c14.conc') and not crashed:
+            if raw[i] is None:
+                bad.append((i, op, 'the probe died during concurrent WriteTo calls into one page: a write faulted because another writer closed the page between its mprotect and its copy'))
+            elif 'bad=0 perms=xx' not in raw[i]:
+                bad.append((i, op, 'concurrent WriteTo calls into one page: a write did not land intact or a page is not r-x afterwards: ' + raw[i]))
     known = [b for b in bad if b[2].startswith('KNOWN:')]
     bad = [b for b in bad if not b[2].startswith('KNOWN:')]
     for i, op, why in known[:1]:
@@ -940,7 +986,7 @@ def run(tier):
 def replay(body):
     ops = body.get('ops', [])
     rc = 0
-    scratch = [o for o in ops if o.startswith('c14.write') or o.startswith('c14.ps ')]
+    scratch = [o for o in ops if o.startswith('c14.write') or o.startswith('c14.ps ') or o.startswith('c14.conc ')]
     hist = [o for o in ops if o.startswith('c14.hist ')]
     text = [o for o in ops if o not in scratch and o not in hist]
     if hist:
@@ -955,6 +1001,8 @@ def replay(body):
         impl, model, raw, calls, base, _ = execute(scratch, tag='c14-replay')
         for i, op in enumerate(scratch):
             why = oracle_write(op, raw[i], calls[i], base[i]) if op.startswith('c14.write') else None
+            if op.startswith('c14.conc') and (raw[i] is None or 'bad=0 perms=xx' not in raw[i]):
+                why = 'concurrent writers: the probe died or a write did not land: ' + str(raw[i])
             print(f'{op[:200]}\n  impl : {impl[i]}\n  model: {model[i] if model else None}\n  oracle: {why or "ok"}')
             if why or (model and impl[i] != model[i]):
                 rc = 1
